@@ -1003,6 +1003,9 @@ def ctx_check(prop: str, tier: str, seed: int) -> core.Report:
         else:
             drift += 1
     rep.extra["differences_attributed_to_other_properties"] = drift
+    from . import suitectx
+    if prop in suitectx.PROPS:
+        suitectx.add_to(rep, prop)
     rep.assumptions = ["Life=FALSE graphs: contexts entered and left with __aenter__/__aexit__ from one task per tour; Life=TRUE graphs: one worker task per context with a real `async with`, blocks ending by return / exception / cancellation, teardown parked by a probe callback",
                        "identity of resources is Python object identity of harness objects; factories are observed through lookups only",
                        "exception classes for invalid names/values/types are not fixed by the statements: any ValueError/TypeError is accepted"]
